@@ -62,6 +62,30 @@ type NoS struct{ X int }
 
 func (NoS) Kind() string { return "nos" }
 
+// Odd is a look-alike of Mid and Top: the same field names, but every field has a
+// concrete type below which the next step of a path planned for Mid/Top does not
+// exist (or ends in a value of another type). A hostile dynamic value for
+// interface-typed source positions whose path continues two or more steps.
+type Odd struct {
+	S   int
+	N   string
+	PS  *int
+	L   NoS
+	PL  *NoS
+	MS  map[string]int
+	MA  map[string]string
+	ML  map[string]NoS
+	MP  map[string]*NoS
+	A   int
+	I   NoS
+	M   Leaf
+	PM  *Leaf
+	MM  map[string]Leaf
+	MPM map[string]*Leaf
+}
+
+func (Odd) Kind() string { return "odd" }
+
 var (
 	tString = reflect.TypeOf("")
 	tInt    = reflect.TypeOf(0)
@@ -79,6 +103,8 @@ var (
 	tMapPL  = reflect.TypeOf(map[string]*Leaf{})
 	tMapM   = reflect.TypeOf(map[string]Mid{})
 	tMapPM  = reflect.TypeOf(map[string]*Mid{})
+	tNoS    = reflect.TypeOf(NoS{})
+	tOdd    = reflect.TypeOf(Odd{})
 )
 
 // declared predecessor output types (sources) and successor input types (targets)
@@ -103,6 +129,8 @@ type wfHandle struct {
 	in, out   reflect.Type
 	addLambda func(key string, l *compose.Lambda) *compose.WorkflowNode
 	end       func() *compose.WorkflowNode
+	addBranch func(from string, b *compose.GraphBranch)
+	addEnd    func(from string, fms ...*compose.FieldMapping) // the deprecated Workflow.AddEnd
 	compile   func(ctx context.Context) (*runHandle, error)
 }
 
@@ -133,6 +161,8 @@ func newWF[I, O any]() *wfHandle {
 	h := &wfHandle{in: reflect.TypeOf((*I)(nil)).Elem(), out: reflect.TypeOf((*O)(nil)).Elem()}
 	h.addLambda = func(key string, l *compose.Lambda) *compose.WorkflowNode { return wf.AddLambdaNode(key, l) }
 	h.end = func() *compose.WorkflowNode { return wf.End() }
+	h.addBranch = func(from string, b *compose.GraphBranch) { wf.AddBranch(from, b) }
+	h.addEnd = func(from string, fms ...*compose.FieldMapping) { wf.AddEnd(from, fms...) }
 	h.compile = func(ctx context.Context) (*runHandle, error) {
 		r, err := wf.Compile(ctx)
 		if err != nil {
@@ -200,6 +230,45 @@ func mkPred[S any](p *predNode) *compose.Lambda {
 	return l
 }
 
+// mkBranch[S] builds a stream branch below a node with output type S that always
+// selects the node `to` (it reads its copy of the output to the end first).
+func mkBranch[S any](to string) *compose.GraphBranch {
+	return compose.NewStreamGraphBranch(func(ctx context.Context, in *schema.StreamReader[S]) (string, error) {
+		defer in.Close()
+		for {
+			_, err := in.Recv()
+			if err == io.EOF {
+				return to, nil
+			}
+			if err != nil {
+				return "", err
+			}
+		}
+	}, map[string]bool{to: true})
+}
+
+// mkRelay builds a lambda `any -> string` that only passes control on: it reads its
+// input (the entire output of a predecessor, or nothing) to the end and returns "r".
+func mkRelay() *compose.Lambda {
+	l, err := compose.AnyLambda[any, string, any](
+		func(ctx context.Context, in any, _ ...any) (string, error) { return "r", nil },
+		nil, nil,
+		func(ctx context.Context, in *schema.StreamReader[any], _ ...any) (*schema.StreamReader[string], error) {
+			for {
+				_, err := in.Recv()
+				if err != nil {
+					break
+				}
+			}
+			in.Close()
+			return schema.StreamReaderFromArray([]string{"r"}), nil
+		})
+	if err != nil {
+		panic(err)
+	}
+	return l
+}
+
 // succRec records what the successor lambda was handed.
 type succRec struct {
 	calls  int
@@ -254,6 +323,7 @@ var (
 	wfTo   = map[reflect.Type]func() *wfHandle{}                  // Workflow[string, T]
 	wfPair = map[[2]reflect.Type]func() *wfHandle{}               // Workflow[S, T]
 	predOf = map[reflect.Type]func(p *predNode) *compose.Lambda{} // any -> S
+	brOf   = map[reflect.Type]func(to string) *compose.GraphBranch{}  // branch below a node with output S
 	succOf = map[reflect.Type]func(r *succRec) *compose.Lambda{}  // T -> string
 )
 
@@ -262,6 +332,7 @@ func rt[T any]() reflect.Type { return reflect.TypeOf((*T)(nil)).Elem() }
 func regSrc[S any]() {
 	wfFrom[rt[S]()] = newWF[S, string]
 	predOf[rt[S]()] = mkPred[S]
+	brOf[rt[S]()] = mkBranch[S]
 }
 
 func regTgt[T any]() {
